@@ -21,32 +21,49 @@ SPELLING_ATTRS = {"org_tag", "org_base_tag", "_hed_string", "_org_tag"}
 SPELLING_CALLS = {"get_original_hed_string", "get_as_original"}
 
 
-def key_functions(fi, call):
-    """The key= argument of a sort call -> (param name, body expr) or None."""
+def key_functions(fi, call, prog=None, live=None):
+    """The key= argument of a sort call -> (param name, body expr, node) or None.  A named key is looked up among the
+    function's nested defs (the one that is live for the analysed arguments when several branches define it) and then
+    among the module's functions."""
     for kw in call.keywords:
         if kw.arg == "key":
             k = kw.value
             if isinstance(k, ast.Lambda) and k.args.args:
                 return k.args.args[0].arg, k.body, k
-            if isinstance(k, ast.Name) and k.id in fi.nested:
-                nf = fi.nested[k.id]
-                rets = [r.value for r in walk_no_nested(nf.node) if isinstance(r, ast.Return) and r.value is not None]
-                if len(rets) == 1 and nf.params():
-                    return nf.params()[0], rets[0], nf.node
+            if isinstance(k, ast.Name):
+                cands = [d for d in ast.walk(fi.node) if isinstance(d, (ast.FunctionDef,)) and d.name == k.id and d is not fi.node]
+                if live is not None:
+                    cands = [d for d in cands if live(d)] or cands
+                for d in cands:
+                    rets = [r.value for r in ast.walk(d) if isinstance(r, ast.Return) and r.value is not None]
+                    if len(rets) == 1 and d.args.args:
+                        return d.args.args[0].arg, rets[0], d
+                if prog is not None:
+                    r = prog.resolve_expr(k, fi.module, fi.cls, fi)
+                    if isinstance(r, FunctionInfo) and r.params():
+                        rets = [x.value for x in walk_no_nested(r.node) if isinstance(x, ast.Return) and x.value is not None]
+                        if len(rets) == 1:
+                            return r.params()[0], rets[0], r.node
     return None
 
 
-def expands(fi, expr, depth=0):
-    """expr plus the return expressions of local helper functions it calls (for 'depends on' questions)."""
+def expands(fi, expr, depth=0, prog=None):
+    """expr plus the return expressions of local / module-level helper functions it calls (for 'depends on' questions)."""
     out = [expr]
     if depth > 3:
         return out
     for c in ast.walk(expr):
-        if isinstance(c, ast.Call) and isinstance(c.func, ast.Name) and c.func.id in fi.nested:
-            nf = fi.nested[c.func.id]
-            for r in walk_no_nested(nf.node):
+        if isinstance(c, ast.Call) and isinstance(c.func, ast.Name):
+            nf = fi.nested.get(c.func.id)
+            node = nf.node if nf is not None else None
+            if node is None and prog is not None:
+                r = prog.resolve_expr(c.func, fi.module, fi.cls, fi)
+                node = r.node if isinstance(r, FunctionInfo) else None
+            if node is None:
+                continue
+            for r in ast.walk(node):
                 if isinstance(r, ast.Return) and r.value is not None:
-                    out += expands(fi, r.value, depth + 1)
+                    out += expands(fi, r.value, depth + 1, prog)
     return out
 
 
@@ -85,6 +102,11 @@ def run(ctx):
         if isinstance(r, ast.Return) and isinstance(r.value, ast.ListComp) and isinstance(r.value.elt, ast.Subscript) and \
                 isinstance(r.value.elt.slice, ast.Constant):
             ret_idx = r.value.elt.slice.value
+        elif isinstance(r, ast.Return) and isinstance(r.value, ast.ListComp) and isinstance(r.value.elt, ast.Name) and \
+                r.value.generators and isinstance(r.value.generators[0].target, ast.Tuple):
+            names = [e.id if isinstance(e, ast.Name) else None for e in r.value.generators[0].target.elts]
+            if r.value.elt.id in names:
+                ret_idx = names.index(r.value.elt.id)      # `[view for _, view in pairs]`
     if ret_idx is None:
         raise AnalysisError("R4.1 anchor: %s no longer returns [x[i] for x in ...]" % prod.short)
     # does tag equality fold case?
@@ -93,23 +115,26 @@ def run(ctx):
     folds = eq is not None and any(isinstance(c, ast.Call) and call_name(c) in ("casefold", "lower") for c in ast.walk(eq.node))
     sorts = [c for c in walk_no_nested(prod.node) if isinstance(c, ast.Call) and call_name(c) in ("sort", "sorted")]
     # orderings that are switched off by the arguments the scan passes are not the ones it sees
-    vprod = view(ctx, prod)
-    live_sorts = []
-    for c in sorts:
-        n_ = vprod.node(c)
-        off = False
-        if n_ is not None:
-            for cond in vprod.conds(lambda t: isinstance(t, ast.Name) and t.id in prod.params()
-                                    or (isinstance(t, ast.UnaryOp) and isinstance(t.op, ast.Not) and isinstance(t.operand, ast.Name)
-                                        and t.operand.id in prod.params())):
-                pn = cond.ast.id if isinstance(cond.ast, ast.Name) else cond.ast.operand.id
-                val = pn in true_params
-                if isinstance(cond.ast, ast.UnaryOp):
-                    val = not val
-                if vprod.edge_guards(cond, not val, n_):
-                    off = True
-        if not off:
-            live_sorts.append(c)
+    pm_prod = {id(ch): p_ for p_ in ast.walk(prod.node) for ch in ast.iter_child_nodes(p_)}
+
+    def live(node):
+        """Not inside an `if <bool parameter>` branch that the scan's arguments switch off."""
+        cur = node
+        while id(cur) in pm_prod:
+            par = pm_prod[id(cur)]
+            if isinstance(par, ast.If):
+                t = par.test
+                neg = isinstance(t, ast.UnaryOp) and isinstance(t.op, ast.Not)
+                nm = t.operand if neg else t
+                if isinstance(nm, ast.Name) and nm.id in prod.params():
+                    val = (nm.id in true_params) != neg
+                    in_body = any(cur is b for b in par.body)
+                    in_else = any(cur is b for b in par.orelse)
+                    if (in_body and not val) or (in_else and val):
+                        return False
+            cur = par
+        return True
+    live_sorts = [c for c in sorts if live(c)]
     # the recursion must hand the switch on
     for pn in sorted(true_params):
         recs = [c for c in walk_no_nested(prod.node) if isinstance(c, ast.Call) and call_name(c) == prod.name]
@@ -123,7 +148,7 @@ def run(ctx):
     sorts = live_sorts
     ctx.floor("R4.1", "orderings in the sorted-view producer", len(sorts), 1)
     for c in sorts:
-        kf = key_functions(prod, c)
+        kf = key_functions(prod, c, prog, live)
         ctx.count_sites()
         if kf is None:
             ctx.violation("R4.1", prod.qualname, c, loc(prod, c),
@@ -132,7 +157,7 @@ def run(ctx):
             continue
         pname, body, _ = kf
         primary = body.elts[0] if isinstance(body, ast.Tuple) and body.elts else body
-        exprs = expands(prod, primary)
+        exprs = expands(prod, primary, 0, prog)
 
         def uses_compared(e):
             return any(isinstance(x, ast.Subscript) and isinstance(x.value, ast.Name) and x.value.id == pname and
